@@ -1,23 +1,284 @@
-(** C26 — correspondence cases: C25's delivery runs plus the sequence log read
-    back through the store API. *)
+(** C26 — correspondence cases: C25's delivery runs plus the sequence log, the
+    hash index and the range queries read back through the store / BlockChain
+    API; runs on para-chain nodes driven through ProcAdd/DelParaChainBlockMsg. *)
 From Coq Require Import List ZArith NArith Bool.
-From C33 Require Import Lib.Harness C25.Spec C25.Check C26.Model.
+From C33 Require Import Lib.Harness C25.Spec C25.Check C26.Model C26.ModelKv C26.SpecIdx.
 From C33 Require Export C25.Model.   (* case files use [mkB] *)
 Import ListNotations.
 Open Scope Z_scope.
 
 (** log entry as read: (hash number, type) with type 1 = add, 2 = delete,
-    0 = GetBlockSequence failed for that number *)
+    0 = no record.  Replies of the by-hash queries: (value, error class) with
+    0 nil, 1 ErrInvalidParam, 2 ErrHashNotExist.  A range query: Start, End,
+    (error class, items). *)
+Definition rangeobs : Type := (Z * Z * (N * list (N * Z)))%type.
+
 Inductive case :=
 | CSeq (fin : Z) (T : list block) (order : list N) (obs : list stepobs) (fmain : list N)
        (log : list (N * Z))                  (* GetBlockSequence 0 .. last *)
-       (last : Z).                           (* LoadBlockLastSequence *)
+       (last : Z)                            (* LoadBlockLastSequence *)
+(** the same run on a node with isRecordBlockSequence = [save], with the index and the queries *)
+| CSeqX (save : bool) (fin : Z) (T : list block) (order : list N) (obs : list stepobs) (fmain : list N)
+        (sobs : list (Z * Z))                (* per delivery: LoadBlockLastSequence, GetSequenceByHash(delivered block) (-1: none) *)
+        (log : list (N * Z)) (last : Z)
+        (idx midx : list (Z * N))            (* ProcGetSeqByHash / ProcGetMainSeqByHash for T's blocks in order, then for a hash of no block *)
+        (nilq : list (Z * N))                (* both with the empty hash *)
+        (lastmain : Z)                       (* LoadBlockLastMainSequence *)
+        (ranges : list rangeobs)             (* GetBlockSequences *)
+        (dels : list (N * N))                (* ProcDelParaChainBlockMsg(block, pid "self") at the end: block, error class (5 ErrNotSupport, 6 ErrBlockHashNoMatch) *)
+(** a para-chain node; T's head is its genesis block *)
+| CPara (save : bool) (T : list block)
+        (ops : list (N * N * Z))             (* 0 add / 1 delete / 2 add without block / 3 delete without block, block, sequence *)
+        (pobs : list (N * N * Z * Z))        (* error class, tip, LoadBlockLastMainSequence, LoadBlockLastSequence *)
+        (fmain : list N)
+        (lo : Z) (n : nat)                   (* GetBlockByMainSequence lo, lo+1, .. (n numbers): *)
+        (mlog : list (Z * (N * Z)))          (*   the records found *)
+        (olog : list (N * Z)) (olast : Z)    (* own log *)
+        (idx midx : list (Z * N)) (nilq : list (Z * N))
+        (ranges : list rangeobs).
 
 Definition decode_entry (e : N * Z) : option (N * bool) :=
   if snd e =? 1 then Some (fst e, true) else if snd e =? 2 then Some (fst e, false) else None.
 
 Definition entry_eqb (a b : option (N * bool)) : bool :=
   option_eqb (fun x y => N.eqb (fst x) (fst y) && Bool.eqb (snd x) (snd y)) a b.
+
+Definition reply_eqb (a b : Z * N) : bool := (fst a =? fst b) && N.eqb (snd a) (snd b).
+Definition range_eqb (a b : N * list (option (N * bool))) : bool :=
+  N.eqb (fst a) (fst b) && list_eqb entry_eqb (snd a) (snd b).
+Definition decode_range (r : N * list (N * Z)) : N * list (option (N * bool)) :=
+  (fst r, map decode_entry (snd r)).
+
+Definition nohash : N := 999998.
+
+(** the old oracle: numbered 0..last without gaps, and the replay is the best chain *)
+Definition log_spec_b (log : list (N * Z)) (last : Z) (fmain : list N) : bool :=
+  (Z.of_nat (length log) =? last + 1) &&
+  match all_some (map decode_entry log) with
+  | Some l => match replay l [] with
+              | Some ch => list_eqb N.eqb ch (rev fmain)
+              | None => false
+              end
+  | None => false
+  end.
+
+Definition plain_log (log : list (N * Z)) : list (N * bool) :=
+  match all_some (map decode_entry log) with Some l => l | None => [] end.
+
+(** fold the model over the order, comparing every observable, and after every
+    delivery the last sequence and the index entry of the delivered block *)
+Fixpoint agree_x (c : conf) (fin : Z) (T : list block) (s : state) (order : list N)
+         (obs : list stepobs) (sobs : list (Z * Z)) : option state :=
+  match order, obs, sobs with
+  | [], [], [] => Some s
+  | h :: order', (im, io, ec, tp, ttd) :: obs', (ls, ix) :: sobs' =>
+      match find_block h T with
+      | None => None
+      | Some b =>
+          let '(s', (mm, mo, me)) := deliver fin s b in
+          let d := kv_state c s' in
+          if Bool.eqb mm im && Bool.eqb mo io && N.eqb (errc_code me) ec
+             && N.eqb (tip s') tp && (tip_td s' =? ttd)
+             && (load_last c d =? ls)
+             && (match get_sequence_by_hash c d h with Some n => n | None => -1 end =? ix)
+          then agree_x c fin T s' order' obs' sobs' else None
+      end
+  | _, _, _ => None
+  end.
+
+(** ProcDelParaChainBlockMsg on a node that is not a para chain: pid "self"
+    wants the block to be the tip (heights above 0), then ErrNotSupport *)
+Definition del_on_main (s : state) (b : block) : N :=
+  if (0 <? bht b) && negb (N.eqb (bid b) (tip s)) then 6%N else 5%N.
+
+Definition ranges_model (c : conf) (d : db) (ranges : list rangeobs) : bool :=
+  forallb (fun r => match r with
+                    | (st, en, o) => range_eqb (get_block_sequences c d st en) (decode_range o)
+                    end) ranges.
+Definition ranges_spec (last : Z) (l : list (N * bool)) (ranges : list rangeobs) : bool :=
+  forallb (fun r => match r with
+                    | (st, en, o) => range_eqb (range_spec last l st en) (decode_range o)
+                    end) ranges.
+
+Definition hashes_of (T : list block) : list N := map bid T ++ [nohash].
+
+(** the by-hash replies against the implementation's own log and chain *)
+Definition index_spec_all (l : list (N * bool)) (m : list N) (T : list block) (idx : list (Z * N)) : bool :=
+  (length idx =? length (hashes_of T))%nat &&
+  forallb (fun p => index_spec_b l m (fst p) (snd p)) (combine (hashes_of T) idx).
+
+Definition nil_reply (r : Z * N) : bool := reply_eqb r (-1, 1%N).
+Definition nohash_reply (r : Z * N) : bool := reply_eqb r (-1, 2%N).
+
+Fixpoint nondecreasing (l : list Z) : bool :=
+  match l with
+  | a :: ((b :: _) as tl) => (a <=? b) && nondecreasing tl
+  | _ => true
+  end.
+
+Definition check_seqx (save : bool) (fin : Z) (T : list block) (order : list N) (obs : list stepobs)
+           (fmain : list N) (sobs : list (Z * Z)) (log : list (N * Z)) (last : Z)
+           (idx midx nilq : list (Z * N)) (lastmain : Z) (ranges : list rangeobs)
+           (dels : list (N * N)) : verdict :=
+  let c := mkConf save false in
+  let ilog := map decode_entry log in
+  let m :=
+    match T with
+    | [] => false
+    | g :: _ =>
+        match agree_x c fin T (init g) order obs sobs with
+        | None => false
+        | Some s =>
+            let d := kv_state c s in
+            list_eqb N.eqb (rev (main s)) fmain
+            && (load_last c d =? last)
+            && list_eqb entry_eqb (map (get_block_sequence c d) (zseq 0 (Z.to_nat (last + 1)))) ilog
+            && (if save then (lastseq (seq_state s) =? last) && list_eqb entry_eqb (read_log (seq_state s)) ilog
+                else true)
+            && list_eqb reply_eqb (map (fun h => proc_get_seq_by_hash c d (Some h)) (hashes_of T)) idx
+            && list_eqb reply_eqb (map (fun h => proc_get_main_seq_by_hash d (Some h)) (hashes_of T)) midx
+            && list_eqb reply_eqb [proc_get_seq_by_hash c d None; proc_get_main_seq_by_hash d None] nilq
+            && (load_last_main d =? lastmain)
+            && ranges_model c d ranges
+            && forallb (fun p => match find_block (fst p) T with
+                                 | Some b => N.eqb (del_on_main s b) (snd p)
+                                 | None => false
+                                 end) dels
+        end
+    end in
+  (* the oracle, on the implementation's outputs only *)
+  let l := plain_log log in
+  let sp :=
+    (if save then log_spec_b log last fmain
+     else (last =? -1) && match log with [] => true | _ => false end)
+    && (if save then index_spec_all l (rev fmain) T idx else forallb nohash_reply idx)
+    && list_eqb reply_eqb idx midx              (* one key serves both queries here *)
+    && forallb nil_reply nilq
+    && (lastmain =? last)
+    && ranges_spec last l ranges
+    && nondecreasing (map fst sobs)
+    && forallb (fun p => (snd p <=? fst p) && (-1 <=? snd p)) sobs
+    && forallb (fun p => negb (N.eqb (snd p) 0)) dels in
+  mk_verdict m sp.
+
+(** * para-chain runs *)
+
+Definition decode_op (T : list block) (o : N * N * Z) : option pop :=
+  match o with
+  | (k, id, ms) =>
+      if N.eqb k 2 then Some (PNil true) else if N.eqb k 3 then Some (PNil false)
+      else match find_block id T with
+           | None => None
+           | Some b => if N.eqb k 0 then Some (PAdd b ms) else Some (PDel b ms)
+           end
+  end.
+
+(** the fold; the flag is the known finding's signature: an executed operation
+    whose sequence number is not above LastSequence at that time *)
+Fixpoint agree_p (c : conf) (T : list block) (s : pstate) (notinc : bool)
+         (ops : list (N * N * Z)) (pobs : list (N * N * Z * Z)) : option (pstate * bool) :=
+  match ops, pobs with
+  | [], [] => Some (s, notinc)
+  | o :: ops', (ec, tp, lm, ls) :: pobs' =>
+      match decode_op T o with
+      | None => None
+      | Some p =>
+          let '(s', e) := pstep c s p in
+          let ni := notinc || (N.eqb e 0 && (snd o <=? load_last_main (pdb s))) in
+          if N.eqb e ec && N.eqb (ptip_id s') tp && (load_last_main (pdb s') =? lm)
+             && (load_last c (pdb s') =? ls)
+          then agree_p c T s' ni ops' pobs' else None
+      end
+  | _, _ => None
+  end.
+
+Definition mrec_eqb (a b : Z * (N * bool)) : bool :=
+  (fst a =? fst b) && N.eqb (fst (snd a)) (fst (snd b)) && Bool.eqb (snd (snd a)) (snd (snd b)).
+
+Definition present (d : db) (lo : Z) (n : nat) : list (Z * (N * bool)) :=
+  somes (map (fun k => match get_block_by_main_sequence d k with
+                       | Some r => Some (k, r)
+                       | None => None
+                       end) (zseq lo n)).
+
+Definition decode_mrecs (mlog : list (Z * (N * Z))) : option (list (Z * (N * bool))) :=
+  all_some (map (fun r => match decode_entry (snd r) with
+                          | Some e => Some (fst r, e)
+                          | None => None
+                          end) mlog).
+
+(** by-hash reply against the main-sequence records *)
+Definition mindex_spec_b (mrecs : list (Z * (N * bool))) (m : list N) (h : N) (reply : Z * N) : bool :=
+  match last_add_key h mrecs None with
+  | None => nohash_reply reply && negb (memN h m)
+  | Some k =>
+      reply_eqb reply (k, 0%N) &&
+      let later := map snd (filter (fun r => k <? fst r) mrecs) in
+      let upto := map snd (filter (fun r => fst r <=? k) mrecs) in
+      if memN h m
+      then negb (existsb (is_del h) later) && chain_eqb (replay upto []) (Some (drop_until h m))
+      else existsb (is_del h) later
+  end.
+
+Definition executed_seqs (ops : list (N * N * Z)) (pobs : list (N * N * Z * Z)) : list Z :=
+  map (fun p => snd (fst p)) (filter (fun p => N.eqb (fst (fst (fst (snd p)))) 0) (combine ops pobs)).
+
+Definition check_para (save : bool) (T : list block) (ops : list (N * N * Z)) (pobs : list (N * N * Z * Z))
+           (fmain : list N) (lo : Z) (n : nat) (mlog : list (Z * (N * Z)))
+           (olog : list (N * Z)) (olast : Z) (idx midx nilq : list (Z * N))
+           (ranges : list rangeobs) : verdict :=
+  let c := mkConf save true in
+  let mrecs := match decode_mrecs mlog with Some l => l | None => [] end in
+  let mres :=
+    match T with
+    | [] => None
+    | g :: _ =>
+        match agree_p c T (pinit c g) false ops pobs with
+        | None => None
+        | Some (s, ni) =>
+            let d := pdb s in
+            Some (list_eqb N.eqb (rev (map bid (pchain s))) fmain
+                  && (match decode_mrecs mlog with
+                      | Some l => list_eqb mrec_eqb (present d lo n) l
+                      | None => false
+                      end)
+                  && (load_last c d =? olast)
+                  && list_eqb entry_eqb (map (get_block_sequence c d) (zseq 0 (Z.to_nat (olast + 1))))
+                                        (map decode_entry olog)
+                  && list_eqb reply_eqb (map (fun h => proc_get_seq_by_hash c d (Some h)) (hashes_of T)) idx
+                  && list_eqb reply_eqb (map (fun h => proc_get_main_seq_by_hash d (Some h)) (hashes_of T)) midx
+                  && list_eqb reply_eqb [proc_get_seq_by_hash c d None; proc_get_main_seq_by_hash d None] nilq
+                  && ranges_model c d ranges, ni)
+        end
+    end in
+  let m := match mres with Some (b, _) => b | None => false end in
+  let notinc := match mres with Some (_, ni) => ni | None => false end in
+  let ch := rev fmain in
+  let ol := plain_log olog in
+  (* own log: as on any node *)
+  let sp_own :=
+    (if save then log_spec_b olog olast fmain
+     else (olast =? -1) && match olog with [] => true | _ => false end)
+    && (if save then index_spec_all ol ch T idx else forallb nohash_reply idx)
+    && ranges_spec olast ol ranges
+    && forallb nil_reply nilq in
+  (* the main-sequence records, read in key order, replay to the best chain; the
+     by-hash entry names the latest add; LastSequence is the highest key *)
+  let lastmain := match rev pobs with (_, _, lm, _) :: _ => lm | [] => -1 end in
+  let sp_main :=
+    match decode_mrecs mlog with
+    | None => false
+    | Some l =>
+        ascending (map fst l)
+        && chain_eqb (replay (map snd l) []) (Some ch)
+        && (match rev l with (k, _) :: _ => k =? lastmain | [] => false end)
+        && (length midx =? length (hashes_of T))%nat
+        && forallb (fun p => mindex_spec_b l ch (fst p) (snd p)) (combine (hashes_of T) midx)
+    end in
+  let guard := increasing_from (-1) (executed_seqs ops pobs) in
+  if sp_own && sp_main then (m, true, 0%N)
+  else if sp_own && negb guard && notinc && m then (m, false, 1%N)
+  else (m, false, 0%N).
 
 Definition check_case (c : case) : verdict :=
   match c with
@@ -30,16 +291,9 @@ Definition check_case (c : case) : verdict :=
             (lastseq q =? last) && list_eqb entry_eqb (read_log q) ilog
         | None => false
         end in
-      (* spec, on the implementation's outputs only: numbered 0..last without
-         gaps, and the replay of the log is the best chain *)
-      let sp :=
-        (Z.of_nat (length log) =? last + 1) &&
-        match all_some ilog with
-        | Some l => match replay l [] with
-                    | Some ch => list_eqb N.eqb ch (rev fmain)
-                    | None => false
-                    end
-        | None => false
-        end in
-      mk_verdict m sp
+      mk_verdict m (log_spec_b log last fmain)
+  | CSeqX save fin T order obs fmain sobs log last idx midx nilq lastmain ranges dels =>
+      check_seqx save fin T order obs fmain sobs log last idx midx nilq lastmain ranges dels
+  | CPara save T ops pobs fmain lo n mlog olog olast idx midx nilq ranges =>
+      check_para save T ops pobs fmain lo n mlog olog olast idx midx nilq ranges
   end.
